@@ -116,6 +116,79 @@ def rexpr(node, env, mode='R', hooks=None):
     raise Unrecognised('node %s' % type(node).__name__)
 
 
+class UnmodelledPath(Unrecognised):
+    """the function has a code path that the generated model would not describe: a branch on the TYPE / shape of an argument, or a
+    return that hands the call over to another function.  Still `Unrecognised` for every caller (C05 re-uses gen_gcirc), but
+    `generate` lists it separately (info['unmodelled_paths']) and the C18 check reports it instead of silently keeping the old file."""
+
+
+TYPE_TESTS = {'isinstance', 'issubclass', 'type', 'isscalar', 'ndim', 'hasattr', 'callable', 'iterable', 'issubdtype', 'shape', 'size',
+              'result_type', 'can_cast', 'isrealobj', 'iscomplexobj', 'is_float', 'is_integer'}
+TYPE_ATTRS = {'ndim', 'shape', 'size', 'dtype', '__class__', '__len__', '__iter__', 'flags', 'strides'}
+
+
+def type_test_in(test):
+    """does the expression look at the type / shape / storage of a value?  -> the name found, or None"""
+    for n in ast.walk(test):
+        if isinstance(n, ast.Call):
+            nm = call_name(n.func) or (n.func.attr if isinstance(n.func, ast.Attribute) else None)
+            if nm in TYPE_TESTS:
+                return nm
+        if isinstance(n, ast.Attribute) and n.attr in TYPE_ATTRS:
+            return '.' + n.attr
+    return None
+
+
+def own_call_in(node, module_funcs):
+    """a call of another function of the same module (or of a bare name that is not a builtin) inside `node` -> its name"""
+    for n in ast.walk(node):
+        if isinstance(n, ast.Call) and isinstance(n.func, ast.Name):
+            if n.func.id in module_funcs or n.func.id.startswith('_'):
+                return n.func.id
+    return None
+
+
+def module_functions(tree):
+    return {n.name for n in tree.body if isinstance(n, (ast.FunctionDef, ast.AsyncFunctionDef))}
+
+
+def reject_unmodelled_paths(fn, module_funcs, allowed_ifs=(), allowed_calls=()):
+    """fail closed on everything that splits the calls of `fn` into several code paths by the type of the arguments:
+       * an if / conditional expression / while / assert / match whose test inspects a type, shape or dtype (except the `allowed_ifs`,
+         statements the extractor models explicitly);
+       * a try statement (the path depends on whether an operation on the argument raises);
+       * a return or an assignment that calls another function of the module (the arithmetic is then somewhere else), except
+         `allowed_calls` (calls the extractor follows);
+       * nested function definitions / lambdas."""
+    for n in ast.walk(fn):
+        if n is fn:
+            continue
+        if isinstance(n, (ast.If, ast.IfExp, ast.While, ast.Assert)) and n not in allowed_ifs:
+            what = type_test_in(n.test)
+            if what:
+                raise UnmodelledPath('%s: line %d branches on the type/shape of an argument (%s): the generated model describes one path only'
+                                     % (fn.name, n.lineno, what))
+        if isinstance(n, (ast.Try, ast.FunctionDef, ast.Lambda, ast.AsyncFunctionDef)) or type(n).__name__ in ('Match', 'TryStar'):
+            raise UnmodelledPath('%s: line %d %s statement: code path depends on more than the values' % (fn.name, n.lineno, type(n).__name__))
+        if isinstance(n, (ast.Return, ast.Assign, ast.AugAssign, ast.Expr)) and getattr(n, 'value', None) is not None:
+            nm = own_call_in(n.value, module_funcs - {fn.name})
+            if nm and nm not in allowed_calls:
+                raise UnmodelledPath('%s: line %d hands the computation over to %s(), which is not translated' % (fn.name, n.lineno, nm))
+            if nm is None and own_call_in(n.value, {fn.name}):
+                raise UnmodelledPath('%s: line %d calls itself' % (fn.name, n.lineno))
+
+
+def only_statements(fn, ok, what):
+    """every statement of the body (docstring apart) must be one the extractor models; anything else is an unrecognised shape,
+    not silently skipped"""
+    for st in fn.body:
+        if isinstance(st, ast.Expr) and isinstance(st.value, ast.Constant) and isinstance(st.value.value, str):
+            continue
+        if not ok(st):
+            raise Unrecognised('%s: statement at line %d (%s) is not part of the recognised shape of %s'
+                               % (fn.name, st.lineno, type(st).__name__, what))
+
+
 def simple_assigns(stmts):
     """[(name, value_node, lineno)] for top-level `name = expr` statements; other statements are skipped."""
     out = []
@@ -167,6 +240,7 @@ def gen_gcirc(src):
     fn = find_function(tree, 'gcirc')
     if [a.arg for a in fn.args.args] != GC_ARGS + ['units']:
         raise Unrecognised('gcirc signature')
+    reject_unmodelled_paths(fn, module_functions(tree))
     default_units = fn.args.defaults[-1].value if fn.args.defaults else None
     body = [s for s in fn.body if not (isinstance(s, ast.Expr) and isinstance(s.value, ast.Constant))]
     # a leading  ra1, dec1, ra2, dec2 = [np.asanyarray(c, dtype=np.float64) for c in (ra1, dec1, ra2, dec2)]  changes the
@@ -324,6 +398,8 @@ def gen_rotation(fn, objs, trig_names, angle_vars, poly_names, lon_name, lat_nam
     """Common shape of munu_to_radec / radec_to_munu.
     trig_names: the sin/cos temporaries (in source order they must all be np.sin/np.cos of an angle idiom);
     poly_names: the polynomial temporaries; lon/lat: names assigned from Angle(arctan2(..))+node and Angle(arcsin(..))."""
+    only_statements(fn, lambda st: (isinstance(st, ast.Assign) and len(st.targets) == 1 and isinstance(st.targets[0], ast.Name))
+                    or (isinstance(st, ast.Return) and st is fn.body[-1]), 'a rotation (assignments, one return)')
     asg = simple_assigns(fn.body)
     seen = [a[0] for a in asg]
     hook = angle_hook(objs)
@@ -471,6 +547,47 @@ def gen_stripe(tree):
     return out
 
 
+def check_frame_class(tree):
+    """class SDSSMuNu: the transforms read `munu.incl`; the generated model takes it to be stripe_to_incl(munu.stripe).  That holds for
+    every frame object, however obtained, only if `incl` is a property computed from self.stripe on access
+    (`return ac.Angle(stripe_to_incl(self.stripe), unit=u.deg)`).  A stored attribute (frame attribute, value set in __init__ / __new__)
+    can go stale in frames derived by replicate / realize_frame: not this shape."""
+    for n in ast.walk(tree):
+        if isinstance(n, ast.ClassDef) and n.name == 'SDSSMuNu':
+            incl = None
+            for st in n.body:
+                if isinstance(st, ast.FunctionDef) and st.name in ('__init__', '__new__', '__getattr__', '__getattribute__', '__setattr__',
+                                                                   '__init_subclass__', 'replicate', 'realize_frame', '_replicate',
+                                                                   'replicate_without_data', '__reduce__', '__getstate__', '__setstate__'):
+                    raise UnmodelledPath('SDSSMuNu: line %d defines %s: frame objects are no longer plain astropy frames whose inclination is '
+                                         'computed from the stripe on access' % (st.lineno, st.name))
+                if isinstance(st, ast.FunctionDef) and st.name == 'incl':
+                    incl = st
+                if isinstance(st, (ast.Assign, ast.AnnAssign)):
+                    tg = st.targets if isinstance(st, ast.Assign) else [st.target]
+                    if any(isinstance(t, ast.Name) and t.id == 'incl' for t in tg):
+                        raise UnmodelledPath('SDSSMuNu: line %d: incl is a stored class/frame attribute, not a property computed from the stripe'
+                                             % st.lineno)
+            if incl is None:
+                raise UnmodelledPath('SDSSMuNu: no property incl')
+            decs = [d.id for d in incl.decorator_list if isinstance(d, ast.Name)]
+            body = [b for b in incl.body if not (isinstance(b, ast.Expr) and isinstance(b.value, ast.Constant))]
+            okay = decs == ['property'] and len(body) == 1 and isinstance(body[0], ast.Return)
+            if okay:
+                v = body[0].value
+                okay = (isinstance(v, ast.Call) and isinstance(v.func, ast.Attribute) and v.func.attr == 'Angle' and len(v.args) == 1
+                        and isinstance(v.args[0], ast.Call) and isinstance(v.args[0].func, ast.Name) and v.args[0].func.id == 'stripe_to_incl'
+                        and len(v.args[0].args) == 1 and isinstance(v.args[0].args[0], ast.Attribute) and v.args[0].args[0].attr == 'stripe'
+                        and isinstance(v.args[0].args[0].value, ast.Name) and v.args[0].args[0].value.id == 'self'
+                        and [k.arg for k in v.keywords] == ['unit'] and isinstance(v.keywords[0].value, ast.Attribute)
+                        and v.keywords[0].value.attr in ('deg', 'degree'))
+            if not okay:
+                raise UnmodelledPath('SDSSMuNu.incl (line %d) is not `@property ... return Angle(stripe_to_incl(self.stripe), unit=u.deg)`'
+                                     % incl.lineno)
+            return
+    raise Unrecognised('class SDSSMuNu not found')
+
+
 def gen_node_default(tree):
     """node = ac.QuantityAttribute(default=ac.Angle(95.0, unit=u.deg), unit=u.deg) in class SDSSMuNu"""
     for n in ast.walk(tree):
@@ -519,6 +636,13 @@ def gen_angles(src):
     tree = ast.parse(src)
     fa = find_function(tree, 'angles_to_x')
     fx = find_function(tree, 'x_to_angles')
+    mf = module_functions(tree)
+    for f in (fa, fx):
+        # the storage type of the result may depend on the dtype of the argument (dtype_choice); nothing else may
+        reject_unmodelled_paths(f, mf, allowed_ifs=[st for st in f.body if dtype_choice(st)])
+        only_statements(f, lambda st: isinstance(st, (ast.Assign, ast.If)) or (isinstance(st, ast.Return) and st is f.body[-1]
+                                                                               and isinstance(st.value, ast.Name)),
+                        'assignments, the latitude / dtype choices and one return')
     out = []
 
     def pts_hook(names):
@@ -610,6 +734,12 @@ def gen_coord(coord_src, mangle_src):
     tree = ast.parse(coord_src)
     f1 = find_function(tree, 'munu_to_radec')
     f2 = find_function(tree, 'radec_to_munu')
+    mf = module_functions(tree)
+    for f in (f1, f2):
+        reject_unmodelled_paths(f, mf)
+    reject_unmodelled_paths(find_function(tree, 'stripe_to_eta'), mf)
+    reject_unmodelled_paths(find_function(tree, 'stripe_to_incl'), mf, allowed_calls=('stripe_to_eta',))
+    check_frame_class(tree)
     out = ['(* GENERATED by translate/c18.py from pydl/pydlutils/coord.py and pydl/pydlutils/mangle.py -- do not edit *)',
            'From Coq Require Import Reals ZArith QArith List.', 'Import ListNotations.', '',
            'Open Scope R_scope.', '']
@@ -636,6 +766,8 @@ def generate(repo):
         info['recognised'] = False
         info['files']['Gcirc.v'] = False
         info['detail'].append('gcirc: %s: %s' % (type(e).__name__, e))
+        if isinstance(e, UnmodelledPath):
+            info.setdefault('unmodelled_paths', []).append(str(e))
         texts['Gcirc.v'] = None
     try:
         texts['Coord.v'] = gen_coord(open(os.path.join(repo, 'pydl/pydlutils/coord.py')).read(),
@@ -645,6 +777,8 @@ def generate(repo):
         info['recognised'] = False
         info['files']['Coord.v'] = False
         info['detail'].append('coord: %s: %s' % (type(e).__name__, e))
+        if isinstance(e, UnmodelledPath):
+            info.setdefault('unmodelled_paths', []).append(str(e))
         texts['Coord.v'] = None
     return texts, info
 
